@@ -573,7 +573,7 @@ pub fn replay_file(path: &str) -> ExitCode {
                 println!("NOT REPRODUCED: the history no longer kills the process");
                 return ExitCode::SUCCESS;
             }
-            let res = pwlsim::run_scenario(&rep.scenario);
+            let res = pwlsim::run_scenario(&rep.scenario, Some(&rep.property));
             let got = match &rep.expected {
                 Some(e) => res
                     .violations
